@@ -341,6 +341,22 @@ def d_c20_end_of_multiline_pattern():
         raise AssertionError('no error')
 
 
+def d_c06_custom_escape_order():
+    """The KeyError documented for names that differ only in case is not raised for a name spelled plainly and with an escape,
+    whichever comes first (C06-R6 custom-map rows)."""
+    import soupsieve as sv
+    for cm in ({':--\\61': 'p', ':--a': 'div'}, {':--a': 'div', ':--\\61': 'p'}):
+        sv.purge()
+        sv.compile('p', custom=cm)
+    sv.purge()
+    try:
+        sv.compile('p', custom={':--a': 'p', ':--A': 'div'})
+    except KeyError:
+        pass
+    else:
+        raise AssertionError('names that differ only in case must still be refused')
+
+
 DEMOS = {k[2:]: v for k, v in list(globals().items()) if k.startswith('d_')}
 
 if __name__ == '__main__':
